@@ -27,8 +27,8 @@ CASE_IMPORTS = [("PW.model", "M_polyline_base"), ("PW.model", "M_segment"), ("PW
                 ("PW.model", "M_polyline_length")]
 ASSUMPTIONS = ["theorems are about exact real arithmetic; binary64 rounding is covered only by the tolerance of the "
                "correspondence check on sampled inputs",
-               "the model describes point_along_path and with_segments_bisected WITH fixes/C08-point-along-path-end.diff and "
-               "fixes/C08-bisect-empty.diff applied"]
+               "the model describes point_along_path and with_segments_bisected as repaired by the fix commits b4dc017 and "
+               "b67c153; the index theorems for with_segments_bisected assume that no segment is listed twice"]
 _IMPORTS = CASE_IMPORTS + [("PW.proofs", "P_vec"), ("PW.proofs", "P_polyline_length")]
 
 QUADS = [(1, 2, 2), (2, 3, 6), (1, 4, 8), (4, 4, 7), (2, 6, 9), (6, 6, 7), (3, 4, 12), (3, 4, 0), (1, 0, 0), (2, 0, 0),
